@@ -89,7 +89,15 @@ def _check_group(cases, ctx: Ctx):
     return out
 
 
-CLAUSES = {"collect": clause_collect}
+def clause_gymcollect(cases, ctx: Ctx):
+    """third pass: the same finite MDPs presented through GymToLeraxEnv(gymnasium twin), whose call log is part of
+    the trace (exactly one gym reset per episode start)"""
+    from mc.props.c13 import clause_gymcollect as g
+
+    return g(cases, ctx, pid="C04")
+
+
+CLAUSES = {"collect": clause_collect, "gymcollect": clause_gymcollect}
 
 
 def family(S, A, *, shaped, limits, act_kind="discrete", obs_kind="discrete", masks=False):
@@ -187,6 +195,15 @@ def explore(ctx: Ctx):
     ctx.notes["plan_cases"] = plan
     ctx.notes["deviation_bound_completed"] = kdev
     ctx.run("collect", cases)
+    from mc.props.c13 import tables as _tables
+
+    ending = [t for t in _tables(2, 2, "discrete", "discrete", [0, 2], False) if any(t["term"]) or t["limit"]]
+    gc = []
+    for t in ending[:: (6 if thorough else 25)]:
+        for sc in ([0, 1, 1], [1, 0], [1, 1, 0, 0]):
+            for algo in ("PPO", "A2C", "REINFORCE") if thorough else ("PPO",):
+                gc.append(dict(table=t, algo=algo, script=sc, num_steps=6, key=keys[0]))
+    ctx.run("gymcollect", gc)
     # distinct non-trivial = distinct cases (all cases are distinct by construction) minus trivial ones
     trivial = sum(1 for c in cases if not any(c["term"]) and not c.get("tl") and not c.get("limit") and c["act_kind"] not in refs.BOX_KINDS and c.get("M") is None)
     for i in range(len(cases) - trivial):
@@ -194,4 +211,4 @@ def explore(ctx: Ctx):
     ctx.notes["trivial_cases_(no_episode_end_no_clip_no_mask)"] = trivial
     ctx.nontrivial = set(range(len(cases) - trivial))
     ctx.states = ctx.transitions + ctx.traces  # every step reaches a reference state (s,t,c); + initial states
-    ctx.require("trunc_only", "term_only", "both", "clipped", "after_reset", "masked_rows")
+    ctx.require("trunc_only", "term_only", "both", "clipped", "after_reset", "masked_rows", "gymcollect-episode-ends")
